@@ -1,5 +1,7 @@
 import P2PVerif.Model.DHT
 import P2PVerif.Lemmas.DHT
+import P2PVerif.Model.DHTNode
+import P2PVerif.Lemmas.DHTNode
 /-! # C20 — iterative DHT operations are bounded, non-redundant and report truthfully
 Property theorems only, about the model of p/kademlia/dht.go in `Model/DHT.lean`. The remote side is an
 arbitrary responder `Nat → NodeInfo → Resp` (call index first), so cyclic, self-referential, fabricated,
@@ -63,6 +65,50 @@ theorem put_truthful (fuel : Nat) (initial : List NodeInfo) (key : Bytes) (ask :
 /-- ⊢ a find-node handler never returns more than ten nodes, whatever limit the request carries. -/
 theorem responder_list_capped (reqLimit : Nat) : findNodeLimit reqLimit ≤ 10 ∧ findNodeLimit reqLimit ≤ reqLimit := by
   unfold findNodeLimit; split <;> omega
+
+/-! ## the node that answers (`Model/DHTNode.lean`, p/kademlia/dht_node.go)
+
+What an honest responder guarantees to the iterative operations above. A node is reached from `Node.new` by any
+sequence of `AddPeer`, `RemovePeer`, local `Put` and `HandlePut` (`Node.run`). -/
+
+/-- ⊢ FindNode answers at most `min(limit, 10)` nodes (a negative limit: none), each one a peer the node holds
+    with the information it stored for it, and the list is the front of the node's nearest-first iteration. -/
+theorem findnode_answer (n : Node) (target : Bytes) (limit : Int) :
+    (n.handleFindNode target limit).length ≤ 10 ∧
+    ((n.handleFindNode target limit).length : Int) ≤ max limit 0 ∧
+    (∃ k, n.handleFindNode target limit = ((n.peers.forEach target).take k).map toInfo) ∧
+    (∀ x ∈ n.handleFindNode target limit, ∃ e ∈ n.peers.entries, e.key = x.id ∧ e.val = x.info) :=
+  DHT.findnode_answer n target limit
+
+/-- ⊢ a node never lists itself: its own id is refused by `AddPeer`, so no answer (FindNode, or the closer lists of
+    Put and Get) contains it. -/
+theorem never_lists_self (localID : Bytes) (ps ds pt dt : Nat) (ops : List NOp) (key : Bytes) (limit : Int) :
+    let n := (Node.new localID ps ds pt dt).run ops
+    (∀ e ∈ n.peers.entries, e.key ≠ localID) ∧
+    (∀ x ∈ n.handleFindNode key limit, x.id ≠ localID) ∧ (∀ x ∈ n.closerNodes key, x.id ≠ localID) :=
+  DHT.never_lists_self localID ps ds pt dt ops key limit
+
+/-- ⊢ the closer lists of Put and Get hold only peers strictly closer to the key than the node's own locus, each
+    one a peer the node holds. -/
+theorem closer_list_strict (n : Node) (key : Bytes) :
+    ∀ x ∈ n.closerNodes key, distanceLt key x.id n.peers.locus = true ∧ ∃ e ∈ n.peers.entries, e.key = x.id ∧ e.val = x.info :=
+  DHT.closer_list_strict n key
+
+/-- ⊢ Accepted is truthful: when HandlePut answers Accepted the value can be read back at once; when it does not,
+    the key is not stored afterwards; a node without a data cache accepts nothing. -/
+theorem accepted_is_truthful (localID : Bytes) (ps ds pt dt : Nat) (ops : List NOp) (key value : Bytes) (ttl now : Nat) :
+    let n := (Node.new localID ps ds pt dt).run ops
+    let r := n.handlePut key value ttl now
+    (r.2.1 = true → r.1.get key = some value) ∧
+    (r.2.1 = false → r.1.get key = none) ∧
+    (ds = 0 → r.2.1 = false) :=
+  DHT.accepted_is_truthful localID ps ds pt dt ops key value ttl now
+
+/-- ⊢ the data cache never holds more than its configured size, and the peer cache never more than its own. -/
+theorem node_caches_bounded (localID : Bytes) (ps ds pt dt : Nat) (ops : List NOp) :
+    let n := (Node.new localID ps ds pt dt).run ops
+    n.data.entries.length ≤ ds ∧ n.peers.entries.length ≤ ps :=
+  DHT.node_caches_bounded localID ps ds pt dt ops
 
 -- non-vacuity: the re-contact scenario of the unrepaired code (A→[B,C], B nearer than C, C→[B]) runs to completion
 -- and contacts B once
